@@ -1,14 +1,183 @@
 /-
   SpecKitV.Drv.ExtCtorShape — driver operations of the generated region `CtorShape` (extension point: `dispatch op` returns
   `some handler` for the operations this file serves).  Mathlib-free.
+
+  Every operation executes the GENERATED definitions of Gen/CtorShape.lean at `Float`:
+    ctorcall <shape> <elems> <fs> <nkw> (<name> <pyval>)* <floatOfStr table> <intOfStr table> <strOf table> <wstep> <sstep>
+                       Gen.ctor_call on the array (shape, C-order elements), `fs`, the keyword arguments given; the tables are CPython's
+                       answers for `float(s)`, `int(s)`, `str(v)`; `wstep` / `sstep` = `ok` (identity) or `raise:<Exc>`
+    ctordefaults       Gen.ctor_positional and Gen.ctor_kwdefaults
+  Values: `n` None · `b:0|1` · `i:<int>` · `r:<16 hex>` float · `s:<hex>` str · `f:<hex>` callable by name · `o:<id>` other object.
+  Strings travel hex-encoded (in the three tables with a leading `h`, so that the empty string is a token).
 -/
 import SpecKitV.Drv.Base
+import SpecKitV.Gen.CtorShape
 
 namespace Drv.ExtCtorShape
-open Drv
+open Drv CS
+
+def hexByte (a b : Char) : Option Nat :=
+  match hexVal a, hexVal b with
+  | some x, some y => some (16 * x + y)
+  | _, _ => none
+
+def unhexAux : List Char → Option (List Char)
+  | [] => some []
+  | a :: b :: rest =>
+    match hexByte a b, unhexAux rest with
+    | some n, some cs => some (Char.ofNat n :: cs)
+    | _, _ => none
+  | _ => none
+
+def unhex (s : String) : Option String := (unhexAux s.toList).map String.ofList
+
+def hexStr (s : String) : String :=
+  String.ofList (s.toList.flatMap (fun c => [hexDigit (c.toNat / 16), hexDigit (c.toNat % 16)]))
+
+def pyvalOf (t : String) : Except String (PyVal Float) :=
+  if t == "n" then .ok .none
+  else if t.startsWith "b:" then .ok (.bool ((t.drop 2).toString == "1"))
+  else if t.startsWith "i:" then
+    match (t.drop 2).toString.toInt? with
+    | some z => .ok (.int z)
+    | none => .error s!"pyval:{t}"
+  else if t.startsWith "r:" then
+    match parseHex (t.drop 2).toString with
+    | some u => .ok (.real (Float.ofBits u))
+    | none => .error s!"pyval:{t}"
+  else if t.startsWith "s:" then
+    match unhex (t.drop 2).toString with
+    | some s => .ok (.str s)
+    | none => .error s!"pyval:{t}"
+  else if t.startsWith "f:" then
+    match unhex (t.drop 2).toString with
+    | some s => .ok (.fn s)
+    | none => .error s!"pyval:{t}"
+  else if t.startsWith "o:" then
+    match (t.drop 2).toString.toNat? with
+    | some n => .ok (.obj n)
+    | none => .error s!"pyval:{t}"
+  else .error s!"pyval:{t}"
+
+def pyvalStr : PyVal Float → String
+  | .none => "n"
+  | .bool b => if b then "b:1" else "b:0"
+  | .int z => s!"i:{z}"
+  | .real x => s!"r:{fmt x}"
+  | .str s => s!"s:{hexStr s}"
+  | .fn s => s!"f:{hexStr s}"
+  | .obj n => s!"o:{n}"
+
+def pyval : M (PyVal Float) := do
+  match pyvalOf (← tok) with
+  | .ok v => return v
+  | .error e => throw e
+
+def hexTok : M String := do
+  let t ← tok
+  match unhex t with
+  | some s => return s
+  | none => throw s!"hexstr:{t}"
+
+/-- `h<hex>` (the prefix keeps the token non-empty for the empty string) -/
+def hexTokH : M String := do
+  let t ← tok
+  match unhex (t.drop 1).toString with
+  | some s => if t.startsWith "h" then return s else throw s!"hexstrH:{t}"
+  | none => throw s!"hexstrH:{t}"
+
+def excStr : PyExc → String
+  | .ValueError => "ValueError"
+  | .TypeError => "TypeError"
+  | .IndexError => "IndexError"
+  | .OverflowError => "OverflowError"
+  | .AttributeError => "AttributeError"
+  | .KeyError => "KeyError"
+  | .Other => "Other"
+
+def excOf (t : String) : PyExc :=
+  if t == "ValueError" then .ValueError else if t == "TypeError" then .TypeError else if t == "IndexError" then .IndexError
+  else if t == "OverflowError" then .OverflowError else if t == "AttributeError" then .AttributeError
+  else if t == "KeyError" then .KeyError else .Other
+
+/-- `ok` (identity) | `raise:<Exc>` -/
+def stepTok : M (Step Float) := do
+  let t ← tok
+  if t == "ok" then return (fun c => .ok c)
+  if t.startsWith "raise:" then
+    let e := excOf (t.drop 6).toString
+    return (fun _ => .error e)
+  throw s!"step:{t}"
+
+/-- the array with the given shape whose C-order elements are `a` -/
+def ndOf (shape : List Nat) (a : Array Float) : NdArr Float :=
+  ⟨shape, fun idx =>
+    -- row-major flat index (a malformed index list reads NaN)
+    let flat := (List.zip shape idx).foldl (fun acc p => acc * p.1 + p.2) 0
+    if idx.length == shape.length then a.getD flat nan else nan⟩
+
+def joinC (l : List String) : String := ",".intercalate l
+
+def ndStr (x : NdArr Float) : String := joinC (x.toList.map fmt)
+
+def dictStr (d : PyDict (PyVal Float)) : String := ";".intercalate (d.map (fun kv => s!"{hexStr kv.1}={pyvalStr kv.2}"))
+
+def ctorcall : M String := do
+  let shape ← natArr
+  let elems ← fltArr
+  let fs ← pyval
+  let nkw ← nat
+  let mut kw : PyDict (PyVal Float) := []
+  for _ in [0:nkw] do
+    let k ← hexTok
+    let v ← pyval
+    kw := kw ++ [(k, v)]
+  let nf ← nat
+  let mut ftab : List (String × Option Float) := []
+  for _ in [0:nf] do
+    let k ← hexTokH
+    let t ← tok
+    if t == "-" then ftab := ftab ++ [(k, none)]
+    else match parseHex t with
+      | some u => ftab := ftab ++ [(k, some (Float.ofBits u))]
+      | none => throw s!"ftab:{t}"
+  let ni ← nat
+  let mut itab : List (String × Option Int) := []
+  for _ in [0:ni] do
+    let k ← hexTokH
+    let t ← tok
+    if t == "-" then itab := itab ++ [(k, none)]
+    else match t.toInt? with
+      | some z => itab := itab ++ [(k, some z)]
+      | none => throw s!"itab:{t}"
+  let ns ← nat
+  let mut stab : List (String × String) := []
+  for _ in [0:ns] do
+    let k ← tok
+    let v ← hexTokH
+    stab := stab ++ [(k, v)]
+  let wstep ← stepTok
+  let sstep ← stepTok
+  let E : Env Float := {
+    floatOfStr := fun s => ((ftab.find? (fun p => p.1 == s)).map (·.2)).getD none
+    intOfStr := fun s => ((itab.find? (fun p => p.1 == s)).map (·.2)).getD none
+    strOf := fun v => ((stab.find? (fun p => p.1 == pyvalStr v)).map (·.2)).getD "?" }
+  let x := ndOf shape.toList elems
+  match Gen.ctor_call E wstep sstep x fs kw with
+  | .error e => return s!"raise {excStr e}"
+  | .ok o =>
+    let x2s := match o.x2 with
+      | some a => s!"{joinC (a.shape.map toString)}|{ndStr a}"
+      | none => "n"
+    return s!"ok iscsd={if o.iscsd then 1 else 0} nx={o.nx} fs={fmt o.fs} verbose={if o.verbose then 1 else 0} pc={pyvalStr o.plan_cache} dshape={joinC (o.data.shape.map toString)} data={ndStr o.data} x1={joinC (o.x1.shape.map toString)}|{ndStr o.x1} x2={x2s} cfg={dictStr o.config}"
+
+def ctordefaults : M String := do
+  return s!"pos={joinC ((Gen.ctor_positional).map hexStr)} kw={dictStr (Gen.ctor_kwdefaults (α := Float))}"
 
 def dispatch (op : String) : Option (M String) :=
   match op with
+  | "ctorcall" => some ctorcall
+  | "ctordefaults" => some ctordefaults
   | _ => none
 
 end Drv.ExtCtorShape
